@@ -23,6 +23,16 @@ func main() {
 		os.Exit(2)
 	}
 	id := os.Args[1]
+	if id == "debug-family" {
+		var idx, n int
+		fmt.Sscan(os.Args[2], &idx)
+		fmt.Sscan(os.Args[3], &n)
+		if err := stagea.DebugFamily(core.Seed(), idx, n); err != nil {
+			fmt.Fprintln(os.Stderr, err)
+			os.Exit(2)
+		}
+		return
+	}
 	if id == "debug-c09" {
 		debugC09(os.Args[2:])
 		return
